@@ -23,7 +23,7 @@ RULE = (
     "counted separately: from the partner component (axis-swapping link) and with a sign change"
 )
 SPACE = {
-    "quick": "domains 2x1,1x2,2x2,3x1 (N=2) and 2x1,1x2 (N=3) x 3 periodicities x all 4^K rotation assignments (all-links-non-reversed kept) x {diff,interp} x both components x 6 layouts (the partner in a different dimension order than the component), each evaluated twice on the same Grid with the same array objects overwritten in place; grids without face connections: 2 ops x 2 comps x 3 rules x 3 layouts",
+    "quick": "domains 2x1,1x2,2x2,3x1 (N=2) and 2x1,1x2 (N=3) x 3 periodicities x all 4^K rotation assignments (all-links-non-reversed kept) x {diff,interp} x both components x 6 layouts (the partner in a different dimension order than the component), for half of the layouts the Grid keeps its default (periodic) rule and the rule comes with each call, each evaluated twice on the same Grid with the same array objects overwritten in place; grids without face connections: 2 ops x 2 comps x 3 rules x 3 layouts",
     "thorough": "+ 2x2,3x1,1x3 at N=3, 2x3 at N=2, all layouts for every case",
 }
 BOUNDS = {"quick": {"N": [2, 3]}, "thorough": {"N": [2, 3]}}
@@ -37,7 +37,8 @@ PARTNER_LAYOUT = {0: 4, 4: 0, 1: 5, 5: 1, 2: 1, 3: 0}
 PERIODICITIES = ((False, False), (True, True), (True, False))
 
 
-def make_grid(K, N, table):
+def make_grid(K, N, table, percall=False):
+    """percall: the Grid keeps its default (periodic) rule and the rule under test comes with each call"""
     from xgcm import Grid
 
     ds = xr.Dataset(
@@ -49,6 +50,9 @@ def make_grid(K, N, table):
     )
     with warnings.catch_warnings():
         warnings.simplefilter("ignore")
+        if percall:
+            return Grid(ds, coords={"X": {"center": "x", "left": "xl"}, "Y": {"center": "y", "left": "yl"}},
+                        face_connections={"face": table}, autoparse_metadata=False)
         return Grid(ds, coords={"X": {"center": "x", "left": "xl"}, "Y": {"center": "y", "left": "yl"}},
                     face_connections={"face": table}, boundary="fill", fill_value=0.0, periodic=False,
                     autoparse_metadata=False)
@@ -102,7 +106,9 @@ def run_case(rec, Kx, Ky, N, per, orient, op, li, seed, pre=None):
     if li % 2:
         table = {f: dict(reversed(list(table[f].items()))) for f in reversed(list(table))}
     try:
-        g = make_grid(nf, N, table)
+        percall = li in (1, 2, 5)
+        ckw = dict(boundary="fill", fill_value=0.0) if percall else {}
+        g = make_grid(nf, N, table, percall=percall)
     except Exception as e:
         rec.violation("constructor", "raise:" + exc_sig(e), case, "a Grid", f"{type(e).__name__}: {e}"[:200])
         return
@@ -130,8 +136,8 @@ def run_case(rec, Kx, Ky, N, per, orient, op, li, seed, pre=None):
     if single:
         ua, va = ua.astype(np.float32), va.astype(np.float32)
     try:
-        ru = getattr(g, op)({"X": ua}, "X", other_component={"Y": va_p})
-        rv = getattr(g, op)({"Y": va}, "Y", other_component={"X": ua_p})
+        ru = getattr(g, op)({"X": ua}, "X", other_component={"Y": va_p}, **ckw)
+        rv = getattr(g, op)({"Y": va}, "Y", other_component={"X": ua_p}, **ckw)
     except Exception as e:
         rec.violation("vector-op", "raise:" + exc_sig(e), case, "array", f"{type(e).__name__}: {e}"[:200])
         return
@@ -149,7 +155,7 @@ def run_case(rec, Kx, Ky, N, per, orient, op, li, seed, pre=None):
             va.values[...] = layout_da(fields[1][3], "Y", layout, fields[1][3]).values
             ua_p.values[...] = layout_da(fields[1][2], "X", playout, fields[1][2]).values
             va_p.values[...] = layout_da(fields[1][3], "Y", playout, fields[1][3]).values
-            results.append((getattr(g, op)({"X": ua}, "X", other_component={"Y": va_p}), getattr(g, op)({"Y": va}, "Y", other_component={"X": ua_p})))
+            results.append((getattr(g, op)({"X": ua}, "X", other_component={"Y": va_p}, **ckw), getattr(g, op)({"Y": va}, "Y", other_component={"X": ua_p}, **ckw)))
             rec.calls += 2
         except Exception as e:
             rec.violation("vector-op", "raise-on-second-call:" + exc_sig(e), case, "array", f"{type(e).__name__}: {e}"[:200])
